@@ -28,6 +28,8 @@ for d in sorted(glob.glob("/verif/seeded/C??" + ("" if rnd == "1" else "-" + rnd
                 break
     if m.get("first_attempt"):
         verdict += " - after strengthening"
+    if m.get("not_caught_note") and own.get("exit") != 1:
+        verdict = "MISSED (open: see notes)"
     if m.get("out_of_domain"):
         verdict = "not caught: outside the documented input domain (see notes)"
 
